@@ -54,7 +54,7 @@ var DocPool = []string{
 }
 
 // NamePool: element and property names, several needing ~0/~1 or percent escapes.
-var NamePool = []string{"a", "b", "c", "d e", "f/g", "h~i", "j%k", "l{m}", "é", "n#o", "p?q", "~1", "%41", "A", "B"}
+var NamePool = []string{"a", "b", "c", "d e", "f/g", "h~i", "j%k", "l{m}", "é", "n#o", "p?q", "~1", "%41", "A", "B", "w ", "\u00a0y", "w"}
 
 // QuoteNames need JSON string escaping when used as member names.
 var QuoteNames = []string{"q\"r", "s\\t", "u\nv"}
@@ -68,13 +68,15 @@ const (
 	SpellAbsolute                      // "file:///w/a/sib.json#/..."
 	SpellRootRel                       // "/w/a/sib.json#/..." (absolute-path reference)
 	SpellMessy                         // absolute URLs may be written non-canonically (dot segments, upper-case scheme/host, default port)
-	SpellAll      = SpellFragment | SpellRelative | SpellDotSlash | SpellAbsolute | SpellRootRel | SpellMessy
+	SpellLiteral                       // the fragment may be written with the least percent-escaping the URL parser accepts
+	SpellAll      = SpellFragment | SpellRelative | SpellDotSlash | SpellAbsolute | SpellRootRel | SpellMessy | SpellLiteral
 )
 
 // GraphOpts are the knobs a property sets.
 type GraphOpts struct {
 	MaxDocs     int      // 1..len(DocPool)+1
 	Spell       Spelling // allowed spellings
+	EmptyPct    int      // share of the non-`$ref` sub-schemas that are the empty schema {} (a target that is an empty object)
 	IDs         bool     // attach `id`s to some schemas (C04 only: ids change the resolution scope)
 	RelDirIDs   bool     // allow relative ids with a directory component (K1)
 	QuoteNames  bool     // use names needing JSON escaping
@@ -150,6 +152,10 @@ func (s *gstate) genSchema(at model.Pos, depth int, refPct int) map[string]any {
 		}
 		s.holes = append(s.holes, hole{h, at, model.KSchema, s.addTarget(at, model.KSchema, true)})
 		return h
+	}
+	if depth > 0 && s.o.EmptyPct > 0 && Pct(t, "empty schema", s.o.EmptyPct) {
+		s.addTarget(at, model.KSchema, false)
+		return map[string]any{}
 	}
 	m := map[string]any{"title": s.newLabel("S")}
 	s.addTarget(at, model.KSchema, false)
@@ -316,6 +322,26 @@ func fragmentOf(ptr string, escapeMore bool) string {
 	return "#" + sb.String()
 }
 
+// literalFragment spells a pointer as a fragment with the least escaping Go's URL parser needs: only '%' and
+// control characters are percent-encoded; blanks, braces, quotes, '#', '?' and non-ASCII characters stay as they are.
+func literalFragment(ptr string) string {
+	if ptr == "" {
+		return ""
+	}
+	var sb strings.Builder
+	for _, c := range []byte(ptr) {
+		if c == '%' || c < 0x20 || c == 0x7f {
+			fmt.Fprintf(&sb, "%%%02X", c)
+		} else {
+			sb.WriteByte(c)
+		}
+	}
+	return "#" + sb.String()
+}
+
+// FragmentOf is the URL-fragment spelling ("#...") of a JSON pointer.
+func FragmentOf(ptr string) string { return fragmentOf(ptr, false) }
+
 func pathBase(p string) string { return p[strings.LastIndex(p, "/")+1:] }
 
 func relPath(from, to string) string {
@@ -340,6 +366,9 @@ func relPath(from, to string) string {
 // Spell writes a `$ref` string that designates tp when it appears in document hdoc.
 func Spell(t *rapid.T, hdoc string, tp model.Pos, allowed Spelling) string {
 	frag := fragmentOf(tp.Ptr, Pct(t, "escmore", 8))
+	if allowed&SpellLiteral != 0 && Pct(t, "literal fragment", 12) {
+		frag = literalFragment(tp.Ptr)
+	}
 	hu, _ := url.Parse(hdoc)
 	tu, _ := url.Parse(tp.Doc)
 	sameDoc := tp.Doc == hdoc
@@ -538,7 +567,7 @@ func Graph(t *rapid.T, o GraphOpts) GraphCase {
 	for _, h := range s.holes {
 		cands := byKind[h.k]
 		if o.OnlyFragAbs {
-			spell = SpellFragment | SpellAbsolute | (spell & SpellMessy)
+			spell = SpellFragment | SpellAbsolute | (spell & (SpellMessy | SpellLiteral))
 		}
 		if len(cands) == 0 {
 			s.plug(h)
